@@ -16,6 +16,7 @@ import (
 	"syscall"
 	"time"
 
+	"github.com/nats-io/nats.go"
 	"github.com/simpleiot/simpleiot/client"
 	"github.com/simpleiot/simpleiot/data"
 	"github.com/simpleiot/simpleiot/store"
@@ -90,6 +91,15 @@ func c04Ops(seed int64, phase, writers int, root string) []c04Op {
 	mkCreate(0, leaf, g4, "variable")
 	add(c04Op{Writer: 0, Kind: "mirror", Node: leaf, Parent: g3, Points: data.Points{{Type: data.PointTypeTombstone, Time: ts(), Origin: "w"}, {Type: data.PointTypeNodeType, Text: "variable"}}})
 	add(c04Op{Writer: 0, Kind: "nodePoints", Node: leaf, Points: nodePts(3)})
+	// points-first creation split by the crash: points are written (and acknowledged) for a node that
+	// has no edge yet; its edge is created late in this phase, or only in the next phase (after the
+	// crash and the restart). Once the node is attached the acknowledged points must be there.
+	orph := pfx + "-orph"
+	add(c04Op{Writer: 0, Kind: "nodePoints", Node: orph, Points: nodePts(2 + r.Intn(3))})
+	if phase > 1 {
+		mkCreate(0, fmt.Sprintf("k%d-orph", phase-1), g1, "variable")
+	}
+	orphLate := r.Chance(0.5)
 	skeleton := len(ops)
 	known := map[int][]string{} // writer -> nodes it may touch: skeleton + own creations
 	placements := map[string][]string{g1: {root}, g2: {g1}, g3: {g1}, g4: {g2}, leaf: {g4, g3}}
@@ -126,6 +136,25 @@ func c04Ops(seed int64, phase, writers int, root string) []c04Op {
 			mkCreate(w, id, parent, "variable")
 			known[w] = append(known[w], id)
 			placements[id] = []string{parent}
+		}
+	}
+	if orphLate {
+		mkCreate(0, orph, g2, "variable")
+	}
+	if r.Chance(0.5) {
+		// a burst: 150-350 batches sent without waiting for the replies (writer 99), so that the store
+		// works through a backlog of requests while the other writers carry on
+		m := 150 + r.Intn(200)
+		targets := []string{g1, g2, g3, g4, leaf}
+		for b := 0; b < m; b++ {
+			np := 5 + r.Intn(30)
+			pts := make(data.Points, 0, np)
+			for j := 0; j < np; j++ {
+				p := data.Point{Type: fmt.Sprintf("bu%d", b), Key: fmt.Sprint(j + 1), Time: ts(), Value: val(), Origin: "w"}
+				p.Text = fmt.Sprintf("t%v", p.Value)
+				pts = append(pts, p)
+			}
+			add(c04Op{Writer: 99, Kind: "nodePoints", Node: targets[r.Intn(len(targets))], Points: pts})
 		}
 	}
 	return ops
@@ -199,6 +228,57 @@ func c04Worker(args []string) int {
 		wg.Add(1)
 		go func(w int) { defer wg.Done(); run(w, skeleton, len(ops)) }(w)
 	}
+	// writer 99: pipelined requests, replies collected as they come
+	wg.Add(1)
+	go func() {
+		defer wg.Done()
+		nc, err := in.Connect()
+		if err != nil {
+			c04Say("CONNERR " + err.Error())
+			return
+		}
+		inbox := nats.NewInbox()
+		var pending int64
+		got := make(chan struct{}, 1024)
+		_, err = nc.Subscribe(inbox+".*", func(m *nats.Msg) {
+			n := m.Subject[len(inbox)+1:]
+			if len(m.Data) == 0 {
+				c04Say("ACK " + n)
+			} else {
+				c04Say("REFUSED " + n + " " + string(m.Data))
+			}
+			got <- struct{}{}
+		})
+		if err != nil {
+			c04Say("CONNERR " + err.Error())
+			return
+		}
+		for _, o := range ops[skeleton:] {
+			if o.Writer != 99 {
+				continue
+			}
+			b, err := o.Points.ToPb()
+			if err != nil {
+				continue
+			}
+			c04Say(fmt.Sprintf("START %d", o.N))
+			if err := nc.PublishRequest(o.subject(), fmt.Sprintf("%s.%d", inbox, o.N), b); err != nil {
+				c04Say(fmt.Sprintf("SENDERR %d %v", o.N, err))
+				continue
+			}
+			pending++
+		}
+		_ = nc.Flush()
+		deadline := time.After(120 * time.Second)
+		for ; pending > 0; pending-- {
+			select {
+			case <-got:
+			case <-deadline:
+				c04Say("BURSTTIMEOUT")
+				return
+			}
+		}
+	}()
 	wg.Wait()
 	c04Say("DONE")
 	in.StopKeepFiles()
@@ -301,7 +381,7 @@ func runC04(tier string, args []string) int {
 		return c04Recover(args[1:])
 	}
 	c := vlib.NewCtx("C04", tier, "fault_enumeration")
-	c.SetRule("per case a writer process (full instance + 1-4 writer connections issuing a deterministic list of acknowledged batches with unique timestamps/values: node batches of 1-5 points and occasional batches of 300-1400 points, edge creation with node type and edge points, edge-point updates, a mirror, over a 4-deep diamond-shaped tree) is killed with SIGKILL at a crash instant chosen from: (a) the N-th write(2) to the store file or its WAL, injected by strace, N from a PRNG list covering first-time initialisation (small N) and steady state, (b) the k-th hit of a verif-tag hook site inside the store (between the statements of a write transaction, between database write and rebroadcast, between the separate steps of first-time initialisation), (c) a parent-side kill after k acknowledged operations, (d) no kill (clean stop). The file is then reopened by a fresh process (full instance), dumped and judged; the recovered file is run and killed a second time (crash during reopening / continued use). Oracle: reopen succeeds with one root; root id and signing key equal the ones announced before the kill; every acknowledged batch is present (stored timestamp >= each of its points); every started batch is visible completely or not at all; no stored harness point that was never sent; C03 Merkle oracle on the recovered tree; admin.storeVerify silent. distinct = (phase, kill kind, operation kind open at death, init|steady, write-index bucket)")
+	c.SetRule("per case a writer process (full instance + 1-4 writer connections issuing a deterministic list of acknowledged batches with unique timestamps/values: node batches of 1-5 points and occasional batches of 300-1400 points, in half of the phases a burst of 150-350 pipelined batches from one more connection (the store then works through a backlog), edge creation with node type and edge points, edge-point updates, a mirror, points for a node whose edge is only created later in the phase or after the crash in the next phase, over a 4-deep diamond-shaped tree) is killed with SIGKILL at a crash instant chosen from: (a) the N-th write(2) to the store file or its WAL, injected by strace, N from a PRNG list covering first-time initialisation (small N) and steady state, (b) the k-th hit of a verif-tag hook site inside the store (between the statements of a write transaction, between database write and rebroadcast, between the separate steps of first-time initialisation), (c) a parent-side kill after k acknowledged operations, (d) no kill (clean stop). The file is then reopened by a fresh process (full instance), dumped and judged; the recovered file is run and killed a second time (crash during reopening / continued use). Oracle: reopen succeeds with one root; root id and signing key equal the ones announced before the kill; every acknowledged batch is present (stored timestamp >= each of its points); every started batch is visible completely or not at all; no stored harness point that was never sent; C03 Merkle oracle on the recovered tree; admin.storeVerify silent. distinct = (phase, kill kind, operation kind open at death, init|steady, write-index bucket)")
 	c.Assume("process death only (SIGKILL): the page cache survives, which is what the property states; power loss is out of scope")
 	self, _ := os.Executable()
 	if _, err := exec.LookPath("strace"); err != nil {
@@ -527,6 +607,10 @@ func runC04(tier string, args []string) int {
 				}
 				return [2]string{p.Type, k}
 			}
+			placed := map[string]bool{} // nodes that have at least one edge in the recovered tree
+			for ek := range edgePts {
+				placed[ek[1]] = true
+			}
 			sent := map[string]bool{} // every harness point ever started: "node|edge id type key ts"
 			for _, ph := range phases {
 				for _, o := range ph.ops {
@@ -581,6 +665,14 @@ func runC04(tier string, args []string) int {
 							m[k] = v
 						}
 						return m
+					}
+					if o.Kind == "nodePoints" && strings.HasSuffix(o.Node, "-orph") && !placed[o.Node] {
+						// written before the node has an edge: not observable through the API until it is attached
+						c.Count("orphan_batches_not_yet_observable", 1)
+						continue
+					}
+					if o.Kind == "nodePoints" && strings.HasSuffix(o.Node, "-orph") && ph.run.Acked[o.N] {
+						c.Count("orphan_batches_judged_after_attach", 1)
 					}
 					if ph.run.Acked[o.N] && (present != stored || !edgeExists) {
 						c.Violate("crash:acknowledged-write-lost", fmt.Sprintf("op %d (%s) of phase %d was acknowledged but %d of its %d points are missing after recovery (edge exists=%v)", o.N, o.Kind, pi+1, stored-present, stored, edgeExists), wit2())
